@@ -21,11 +21,10 @@ M32 = 0xffffffff
 # e161ae8, a8b271d, a22623c); the sixth - iwrb_back on a wrapped ring - is the KNOWN FINDING C18-rb-back-wrapped: the scripts of
 # the family with this origin are judged by the bounded-deque reference and their verdict carries the origin in the replay object
 RB_BACK_ORIGIN = "rb-back-wrapped"
-# finding cont-pool-alloc-size-wrap (round 7): iwpool_alloc(siz) for siz in (SIZE_MAX - 7, SIZE_MAX] rounds the size up to 0 and returns a
-# pointer with no byte reserved.  Until fixes/cont-pool-alloc-size-wrap.diff is committed the default run tolerates that answer (and the
-# driver models the unguarded code); VERIF_C18_JUDGE_POOL_WRAP=1 judges it, models the guard, and adds the calloc / strndup calls
-# that crash on the unguarded code
-JUDGE_POOL_WRAP = os.environ.get("VERIF_C18_JUDGE_POOL_WRAP") == "1"
+# finding cont-pool-alloc-size-wrap (round 7, fixed in /repo as 435f237): iwpool_alloc(siz) for siz in (SIZE_MAX - 7, SIZE_MAX] rounded the size
+# up to 0 and returned a pointer with no byte reserved.  The answer is judged, the driver models the guard, and the calloc / strndup
+# calls that crashed on the unguarded code are part of every run
+JUDGE_POOL_WRAP = True
 SIZE_MAX = (1 << 64) - 1
 def _rb_hdr():
     # sizeof(struct iwrp) of the tree under test (a layout fact from the probe, T1); 32 on the 64-bit build: pos, len, usize, buf
